@@ -492,7 +492,10 @@ def produce(spec):
     try:
         if kind == "compiled":
             out["results"] = compiled_results(obj, spec["compiled"])
-            out["hash"] = str(hash(ex))
+            try:
+                out["hash"] = str(hash(ex))
+            except TypeError:       # an object array of expressions
+                out["hash"] = None
         else:
             try:
                 out["hash"] = str(hash(obj))
